@@ -103,11 +103,12 @@ theorem Inv_mapTasks {c : State} (h : Inv c) (f : Task → Task) (val' : Nat)
     exact hok t (h.ok t ht)
 
 theorem explicitResp_good (resp : Option Nat) (ver : Nat) :
-    ∀ r, explicitResp resp ver = some r → ver ≤ r.body ∨ success r.code = false := by
+    ∀ r, explicitResp resp ver = some r →
+      r.exc = false ∧ (ver ≤ r.body ∨ success r.code = false) := by
   intro r hr
   cases resp with
   | none => simp [explicitResp] at hr
-  | some code => simp [explicitResp] at hr; subst hr; exact Or.inl (Nat.le_refl _)
+  | some code => simp [explicitResp] at hr; subst hr; exact ⟨rfl, Or.inl (Nat.le_refl _)⟩
 
 theorem Inv_update {c : State} (h : Inv c) (resp : Option Nat) : Inv (handle c (.update resp)).1 := by
   simp only [handle]
